@@ -111,6 +111,7 @@ def _race_job(job):
                     bad.append('a holder is told it was the last one while another holder has not yet released')
             if not bad and shf.cells.get(cell) != 0:
                 bad.append('final counter is %r, expected 0' % shf.cells.get(cell))
+        ex.deadline = time.time() + 120
         ex.explore(done)
         res.update(states=ex.states, transitions=ex.transitions, executions=ex.executions)
         if bad:
